@@ -85,8 +85,21 @@ func (e *Env) WriteSession(authKey []byte, salt int64, host string) error {
 	return os.WriteFile(e.SessionPath(), b, 0o600)
 }
 
-// ReadSession parses the session file independently of the store's code.
+// ReadSession parses the session file independently of the store's code. The store rewrites the file in place
+// (truncate, then write), so a read that races with a rewrite sees a torn file: such a read is repeated.
 func (e *Env) ReadSession() *SessionFile {
+	var sf *SessionFile
+	for i := 0; i < 200; i++ {
+		sf = e.readSessionOnce()
+		if !sf.Exists || sf.SaltOK {
+			return sf
+		}
+		time.Sleep(time.Millisecond)
+	}
+	return sf
+}
+
+func (e *Env) readSessionOnce() *SessionFile {
 	b, err := os.ReadFile(e.SessionPath())
 	if err != nil {
 		return &SessionFile{Exists: false}
